@@ -159,6 +159,15 @@ Definition sop_ok (o : sop) : bool :=
   | SAgain => true
   end.
 
+(** what may follow a failed try-send: INTERRUPT, the closing ERROR, "again" *)
+Definition onf_ok (o : sop) : bool :=
+  match o with
+  | SSend _ (SOther _) => true
+  | SReply _ (SErrorCall _ true) => true
+  | SAgain => true
+  | _ => false
+  end.
+
 Definition is_sreply (o : sop) : bool := match o with SReply _ _ => true | _ => false end.
 
 Definition dop_ok (o : wop) : bool :=
@@ -170,7 +179,7 @@ Definition dop_ok (o : wop) : bool :=
        | SResult _ _ _ _ cl => eqb eo cl && implb ef cl
        | _ => false
        end)
-      && forallb sop_ok onf
+      && forallb onf_ok onf
       && (negb ef || match onf with [] => true | _ => false end)
       && Nat.leb (length (filter is_sreply onf)) 1
   end.
@@ -460,8 +469,16 @@ Proof. intros. destruct l; auto. simpl in H. discriminate. Qed.
 Lemma simple_map : forall onf, forallb is_simple (map OSimple onf) = true.
 Proof. induction onf; simpl; auto. Qed.
 
-Lemma dop_map : forall onf, forallb sop_ok onf = true -> forallb dop_ok (map OSimple onf) = true.
-Proof. induction onf; simpl; auto. intros H; apply andb_true_iff in H as [? ?]. rewrite H; auto. Qed.
+Lemma onf_sop : forall o, onf_ok o = true -> sop_ok o = true.
+Proof.
+  intros o H; destruct o as [r m|r m|]; simpl in *; auto; destruct m; try discriminate; auto.
+Qed.
+
+Lemma dop_map : forall onf, forallb onf_ok onf = true -> forallb dop_ok (map OSimple onf) = true.
+Proof.
+  induction onf; simpl; auto. intros H; apply andb_true_iff in H as [? ?].
+  rewrite (onf_sop _ H); auto.
+Qed.
 
 Lemma err_replies_ok : forall (f : crec -> bool) cs,
   forallb dop_ok (map (fun c => OSimple (err_reply c)) (filter f cs)) = true /\
